@@ -329,6 +329,26 @@ pub fn explore_c11(rep: &Report, finish: bool) -> i32 {
     for f in ["6k1/5ppp/8/8/8/8/8/R3K3 w Q - 0 1", "7k/8/5K2/6Q1/8/8/8/8 w - - 0 1", "k7/8/1K6/8/8/8/8/7R w - - 0 1", "r1bqkb1r/pppp1ppp/2n2n2/4p2Q/2B1P3/8/PPPP1PPP/RNB1K1NR w KQkq - 4 4"] {
         sweep_roots.push(Pos::from_fen(f).unwrap());
     }
+    // promotions at the root: a mate by under-promotion (all four promotions of a pawn share from and to), and a
+    // queen promotion on offer that is not the mate
+    for f in ["6nb/5Ppk/7p/8/8/8/8/K7 w - - 0 1", "3n3k/1P6/6K1/8/8/8/8/5R2 w - - 0 1"] {
+        let p = Pos::from_fen(f).expect("promotion mate fen");
+        for p in [p, p.mirror()] {
+            if !p.is_legal_position() || !p.legal_moves().iter().any(|m| p.make(m).is_checkmate()) {
+                crate::report::machinery_error(&format!("C11 sweep root {} has no mate in one", p.fen()));
+            }
+            sweep_roots.push(p);
+        }
+    }
+    {
+        let sm = special_move_check_positions(true, 1);
+        let stride = if quick { 400 } else { 40 };
+        for (i, p) in sm.iter().enumerate() {
+            if i % stride == 0 && p.legal_moves().iter().any(|m| m.promo != 0 && p.make(m).is_checkmate()) {
+                sweep_roots.push(*p);
+            }
+        }
+    }
     let sweep_points = AtomicU64::new(0);
     let full_runs = AtomicU64::new(0);
     for pos in &sweep_roots {
